@@ -398,6 +398,8 @@ def run(ctx):
     finish_agg(rep, free, 'free-running runs')
     finish_agg(rep, rnd, 'random-interleaving runs')
     rep.exhaustive = allagg['ndrift'] == 0
+    from . import c18_emitter
+    c18_emitter.stage(rep, ctx)
     lock_race_probe(rep, ctx, 300 if ctx.quick else 5000)
     rep.traces += rep.extra['lock_race_interleavings']
     return rep.finish()
@@ -418,6 +420,15 @@ def replay(ctx):
         if not n:
             print(f'replay of {ctx.replay}: the emitter lock-discipline probe finds no violation on the current tree')
         return 1 if n else 0
+    if wit.get('mode') == 'emitter':
+        from . import c18_emitter
+        v = c18_emitter.replay_witness(wit)
+        if v:
+            print(f'VIOLATION property=C18 replay={ctx.replay}')
+            print(f'  C18_Wellformed (emitter protocol): {v[1]}')
+            return 1
+        print(f'replay of {ctx.replay}: the emitter protocol behaviour shows no violation on the current tree')
+        return 0
     if wit.get('mode') == 'replay':
         res = H.replay_lineage(wit['path'], wit['final'], wit['model_events'], [])
         print(f'replay of {ctx.replay}: behaviour {[tuple(l) for l in wit["path"]]}')
